@@ -55,9 +55,18 @@ func New(property string) *Ctx {
 func (c *Ctx) RunWitnesses(run func(f stats.Finding) *Failure) {
 	for _, f := range c.listed {
 		fl := safeRun(func() *Failure { return run(f) })
-		if fl != nil && fl.Signature == f.Signature {
+		if fl == nil {
+			continue
+		}
+		match := false
+		for _, sg := range f.AllSignatures() {
+			match = match || sg == fl.Signature
+		}
+		if match {
 			c.mu.Lock()
-			c.active[f.Signature] = f
+			for _, sg := range f.AllSignatures() {
+				c.active[sg] = f
+			}
 			c.mu.Unlock()
 			c.Rec.KnownReproduced(f.ID, f.What)
 		}
@@ -103,6 +112,14 @@ func (c *Ctx) Judge(t TB, test string, fl *Failure, cs interface{}) {
 	}
 	if f, ok := c.Known(fl.Signature); ok {
 		c.Rec.Excluded(f.ID)
+		return
+	}
+	if os.Getenv("VERIF_SURVEY") != "" {
+		// triage mode (never used by registered checks): count signatures instead of stopping at the first
+		c.Rec.Label("survey:"+fl.Signature, 1)
+		if os.Getenv("VERIF_SURVEY") == "2" {
+			fmt.Fprintf(os.Stderr, "SURVEY %s :: %.300s\n", fl.Signature, fl.Detail)
+		}
 		return
 	}
 	path := c.Rec.Violation(test, fl.Signature, fl.Detail, cs)
